@@ -13,8 +13,8 @@ here is a bounded check.
                              SubstitutionGroupComparator::isEquivalentTo, the schema part of buildAttList
           XV.Model.ContentModel (C07, imported)  DFAContentModel: buildSyntaxTree / buildDFA / validateContent
   NOT modelled: TraverseSchema (schema document -> components); UPA / particle-derivation checking (decision
-  table in tools/props/c08.py only); the counting states of DFAContentModel (`handleRepetitions`) are covered by
-  the correspondence tier and by `counting_*` below for the modelled walk.
+  table in tools/props/c08.py only).  The counting states of DFAContentModel (`CMRepeatingLeaf`, `fCountingStates`,
+  `handleRepetitions`) ARE modelled (XV.Model.ParticleDfa) and proved exact: `counting_eq_unrolled` below.
 -/
 import XV.Lemmas.Particle
 import XV.Lemmas.ParticleExpand
@@ -23,6 +23,7 @@ import XV.Lemmas.ParticleRules
 import XV.Lemmas.DfaFinal
 import XV.Lemmas.ParticleDfa
 import XV.Lemmas.XsdValid
+import XV.Lemmas.ParticleCountFinal
 namespace XV.Props.C08
 open XV.Spec.Particle XV.Model.Particle
 
@@ -106,18 +107,16 @@ example : toCM (makeTree (SNode.group1 .Sequence (.group2 .Choice (.leaf 0 1 (so
 /-! ### DFAContentModel with counting states (`CMRepeatingLeaf`, `handleRepetitions`) -/
 
 open XV.Lemmas.ParticleExpand XV.Lemmas.ParticleDfa XV.Model.ParticleDfa XV.Spec.ContentModel in
-/-- PARTIAL.  Full statement intended by DESIGN §4/C08 (`counting_eq_unrolled`): for every well-formed tree `s`
+/-- PARTIAL (kept; the full statement is `counting_eq_unrolled` below, which uses this theorem for the trees
+    converted without compact syntax).  Full statement intended by DESIGN §4/C08: for every well-formed tree `s`
     without all-groups, `validateTree s w = .ok ↔ PLang SymM s.toParticle w`.
-    What is proved: the statement for every tree whose conversion contains no `Loop` node
+    What is proved HERE: the statement for every tree whose conversion contains no `Loop` node
     (`toCM (makeTree s) = some c`) — i.e. whenever `useRepeatingLeafNodes s && !hasRepeatedLeaf s` is false, or all
     ranges are ?, *, + — all child sequences, non-deterministic models included: there the schema-mode model
     with counting states (element map, `fCountingStates`, `handleRepetitions`) IS the C07 DFA model.
-    Not proved: the remaining case, trees converted WITH `Loop` nodes (every non-(1,1) range sits on a leaf and, since
-    the repair `!hasRepeatedLeaf`, all leaves are pairwise different).  The statement is believed true there
-    (each element-map entry then belongs to one leaf, a counting state can only be re-entered by its own leaf and
-    the follow relation has no cycles besides the self loops); before the repair it was false — (a{2,2}, b, a{3,3})
-    rejected a a b a a a, see `counting_repaired_witness`.  That case is covered by the exhaustive correspondence of
-    tools/props/c08.py only (model = library = Spec on every child sequence of every generated compact tree). -/
+    Not covered here: trees converted WITH `Loop` nodes (every non-(1,1) range sits on a leaf and, since the repair
+    `!hasRepeatedLeaf`, all leaves are pairwise different) — see `counting_eq_unrolled`.  Before the repair the
+    statement was false there — (a{2,2}, b, a{3,3}) rejected a a b a a a, see `counting_repaired_witness`. -/
 theorem counting_eq_unrolled_partial (s : SNode Nat) (hwf : s.wf = true) (c : CM) (hc : toCM (makeTree s) = some c)
     (π : List Nat) : validateTree s π = .ok ↔ PLang SymM s.toParticle π := by
   have h : validateTree s π = (XV.Model.ContentModel.Model.dfa (XV.Model.ContentModel.nodeOfCM c)).validate π :=
@@ -151,6 +150,83 @@ open XV.Model.ParticleDfa in
 -- a compact tree on which counting works: a{2,3} b
 example : validateTree (.group2 .Sequence (.leaf 0 2 (some 3)) (.leaf 1 1 (some 1)) 1 (some 1)) [0, 0, 0, 1] = .ok ∧
     validateTree (.group2 .Sequence (.leaf 0 2 (some 3)) (.leaf 1 1 (some 1)) 1 (some 1)) [0, 1] = .fail 1 := by decide
+
+open XV.Lemmas.ParticleExpand XV.Lemmas.ParticleCount XV.Model.ParticleDfa in
+/-- FULL statement (DESIGN §4/C08 `counting_eq_unrolled`).  For EVERY ContentSpecNode tree `s` over leaf ids that is
+    Particle-Correct (`s.wf`: every range has min ≤ max, max ≥ 1) and contains no all-group (`noAll s`: all-groups
+    get an `AllContentModel`, never the DFA — `all_iff_permutation`), and EVERY child sequence `π`: the schema-mode
+    `DFAContentModel` pipeline — `makeContentModel`'s choice of the compact syntax
+    (`useRepeatingLeafNodes s && !hasRepeatedLeaf s`), `convertContentSpecTree` with `Loop` nodes for the ranges on
+    leaves, `buildSyntaxTree` (`CMRepeatingLeaf` positions), the subset construction, `elemOccurenceMap`,
+    `fCountingStates`, and the table walk of `validateContent` with the loop counter of `handleRepetitions`
+    (maxOccurs test + search for an alternative entry, minOccurs test on leaving and at the end) — accepts `π`
+    exactly when `π` is in the declared particle language of `s` (`PLang`, equivalently `pMatch` by `pMatch_iff`).
+    Both branches are covered: trees converted WITH `Loop` nodes (all leaves pairwise different since fix d7e638c)
+    and trees expanded by copying.
+    Proof (XV.Lemmas.ParticleCount*): in a compact tree closures only surround single leaves, so the follow
+    relation only goes forward (`fol_le`), a state has at most one self-loop entry, the follow set of a `+` leaf
+    is shared with no earlier position (`plus_sep`: the subset construction never merges the state entered by a
+    `Loop` leaf with minOccurs ≥ 1 with a state entered by another leaf), transitions never target state 0 and
+    states ≥ 1 are pairwise different (`dfaLoop_extra`); hence the counting walk is the plain table walk plus a
+    block check (`cwalk_iff`), and the particle language is the skeleton language plus the same block check
+    (`compact_lang`). -/
+theorem counting_eq_unrolled (s : SNode Nat) (hwf : s.wf = true) (hna : noAll s = true) (π : List Nat) :
+    validateTree s π = .ok ↔ PLang SymM s.toParticle π := by
+  cases hflag : (useRepeatingLeafNodes s && !hasRepeatedLeaf s) with
+  | false =>
+    have hmt : makeTree s = convert false s := by unfold makeTree; rw [hflag]
+    have hok := okCM_convert s hna
+    unfold okCM at hok
+    cases hc : toCM (convert false s) with
+    | none => rw [hc] at hok; cases hok
+    | some c => exact counting_eq_unrolled_partial s hwf c (by rw [hmt]; exact hc) π
+  | true =>
+    simp only [Bool.and_eq_true, Bool.not_eq_true'] at hflag
+    obtain ⟨hu, hrep⟩ := hflag
+    have hmt : makeTree s = convert true s := by unfold makeTree; rw [hu, hrep]; rfl
+    obtain ⟨hcomp, hnames⟩ := compact_convert s hwf hna hu
+    have hnd : (XV.Lemmas.Glushkov.names (sk (convert true s))).Nodup := by
+      rw [hnames]; exact (hasRepeatedLeafIn_false _).1 hrep
+    have h1 : validateTree s π = (match buildCDFA (convert true s) with
+        | some c => validate c (fun x a => x == a) π
+        | none => XV.Model.ContentModel.Res.exc "dfa-fuel") := by
+      unfold validateTree; rw [hmt]; rfl
+    rw [h1]
+    exact (counting_compact (convert true s) hcomp hnd π).trans (convert_preserves' true s hwf π)
+
+/-- (a{2,3}, b{0,2}) over leaf ids 0 (a) and 1 (b): converted with two real `Loop` nodes -/
+def countingLoops : SNode Nat := .group2 .Sequence (.leaf 0 2 (some 3)) (.leaf 1 0 (some 2)) 1 (some 1)
+
+-- non-vacuity of `counting_eq_unrolled`: the hypotheses hold, the tree is converted with `Loop` nodes, the DFA has
+-- counting states, both verdicts occur (too few / too many a's, too many b's), and the theorem transports them
+open XV.Lemmas.ParticleCount in
+example : countingLoops.wf = true ∧ noAll countingLoops = true ∧
+    (useRepeatingLeafNodes countingLoops && !hasRepeatedLeaf countingLoops) = true := by decide
+example : makeTree countingLoops
+    = .bin .Sequence (.loopRep .OneOrMore 2 (some 3) (.leaf 0)) (.loopRep .ZeroOrMore 0 (some 2) (.leaf 1)) := by decide
+open XV.Model.ParticleDfa in
+example : (buildCDFA (makeTree countingLoops)).map (fun c => c.counting.isSome) = some true := by decide
+open XV.Model.ParticleDfa in
+example : validateTree countingLoops [0, 0, 1, 1] = .ok ∧ validateTree countingLoops [0, 0, 0] = .ok ∧
+    validateTree countingLoops [0, 1] = .fail 1 ∧ validateTree countingLoops [0, 0, 0, 0] = .fail 3 ∧
+    validateTree countingLoops [0, 0, 1, 1, 1] = .fail 4 := by decide
+open XV.Lemmas.ParticleExpand in
+example : PLang SymM countingLoops.toParticle [0, 0, 0, 1] :=
+  (counting_eq_unrolled countingLoops (by decide) (by decide) _).1 (by decide)
+open XV.Lemmas.ParticleExpand in
+example : ¬ PLang SymM countingLoops.toParticle [0, 0, 1, 1, 1] :=
+  fun h => absurd ((counting_eq_unrolled countingLoops (by decide) (by decide) _).2 h) (by decide)
+-- a state entered by `b` that coincides with the counting state of `a{0,2}` (merged state sets, minOccurs = 0):
+-- (b, a{0,2}, c)
+open XV.Model.ParticleDfa in
+example : validateTree (.group2 .Sequence (.leaf 1 1 (some 1)) (.group2 .Sequence (.leaf 0 0 (some 2)) (.leaf 2 1 (some 1)) 1 (some 1)) 1 (some 1)) [1, 2] = .ok ∧
+    validateTree (.group2 .Sequence (.leaf 1 1 (some 1)) (.group2 .Sequence (.leaf 0 0 (some 2)) (.leaf 2 1 (some 1)) 1 (some 1)) 1 (some 1)) [1, 0, 0, 2] = .ok ∧
+    validateTree (.group2 .Sequence (.leaf 1 1 (some 1)) (.group2 .Sequence (.leaf 0 0 (some 2)) (.leaf 2 1 (some 1)) 1 (some 1)) 1 (some 1)) [1, 0, 0, 0, 2] = .fail 3 := by decide
+/-- the hypothesis `noAll` is necessary: the DFA model reads an `All` node as a sequence -/
+example : (SNode.group2 .All (.leaf 0 1 (some 1)) (.leaf 1 1 (some 1)) 1 (some 1)).wf = true ∧
+    XV.Model.ParticleDfa.validateTree (.group2 .All (.leaf 0 1 (some 1)) (.leaf 1 1 (some 1)) 1 (some 1)) [1, 0] = .fail 0 ∧
+    pMatch (fun (x a : Nat) => x == a) (SNode.group2 .All (.leaf 0 1 (some 1)) (.leaf 1 1 (some 1)) 1 (some 1)).toParticle [1, 0] = true := by
+  decide
 
 /-! ### AllContentModel -/
 
